@@ -1,164 +1,8 @@
 ------------------------------ MODULE ServerReg ------------------------------
-(***************************************************************************)
-(* The server's registration path (server/src/server.rs handle_stream):   *)
-(* every stream a peer opens is one task that reads a first frame,         *)
-(* answers Ok or Error, looks the topic up (creating it if needed) under   *)
-(* the global topics lock and hands the socket to the topic's router       *)
-(* through a bounded channel.  Routers are abstracted to two facts: does   *)
-(* the router currently drain its channel (not while it is blocked on a    *)
-(* subscriber's readiness) and which kind it is.                           *)
-(* Deviations of the code as written (FALSE = as written):                 *)
-(*   FixD10  a role that does not match the topic's kind is refused with   *)
-(*           an error frame (as written: Ok, then the task panics)         *)
-(*   FixD15  the socket is sent to the router after the lock was released  *)
-(*           (as written: tx.send().await while holding the global lock)   *)
-(*   FixD18  a first frame that is not a registration is refused with an   *)
-(*           error frame (as written: the stream is dropped silently)      *)
-(* A deviation the code does not have, named so that the model shows the   *)
-(* check-and-create of a topic has to be one critical section:             *)
-(*   AtomicCreate  TRUE: contains_key / insert happen under one hold of    *)
-(*           the lock (the code); FALSE: the task peeks first, builds the  *)
-(*           router outside the lock and inserts it on a second hold       *)
-(***************************************************************************)
-EXTENDS Naturals, Sequences, FiniteSets, TLC, Json
-
-CONSTANTS Tasks,          \* stream-open attempts
-          Topics,         \* valid topic names
-          Cap,            \* capacity of a topic's registration channel
-          FrameSet,       \* first frames the peers may send (subset of FirstFrames)
-          TopicSet,       \* topics the peers may name (subset of Topics \cup {"invalid"})
-          FixD10, FixD15, FixD18, AtomicCreate
-
-Roles == {"pub", "sub", "rep", "req"}
-KindOf(role) == IF role \in {"pub", "sub"} THEN "pubsub" ELSE "reqrep"
-FirstFrames == Roles \cup {"other"}          \* "other": Message / BatchMessage / Error / Ok
-
-VARIABLES frame,     \* [Tasks -> FirstFrames]  what the peer sends first
-          topic,     \* [Tasks -> Topics \cup {"invalid"}]
-          pc,        \* [Tasks -> control point]
-          reply,     \* [Tasks -> "none" | "ok" | "err_invalid" | "err_kind" | "err_frame"] first frame the peer sees
-          lock,      \* 0 or the task holding the global topics lock
-          kind,      \* [Topics -> "none" | "pubsub" | "reqrep"]
-          chan,      \* [Topics -> Nat]   sockets queued for the topic's router
-          drains,    \* [Topics -> BOOLEAN]  the router is polling its channel
-          adopted,   \* [Topics -> SUBSET Tasks]  sockets the router has adopted
-          nrouters,  \* [Topics -> Nat]  routers ever spawned for the topic name
-          fresh,     \* [Tasks -> BOOLEAN]  (only ~AtomicCreate) the peek found no topic
-          handed     \* [Tasks -> Nat]  the router (1..nrouters) whose channel the socket was sent to; 0 = none
-
-svars == <<frame, topic, pc, reply, lock, kind, chan, drains, adopted, nrouters, fresh, handed>>
-
-SInit == /\ frame \in [Tasks -> FrameSet]
-         /\ topic \in [Tasks -> TopicSet]
-         /\ pc = [k \in Tasks |-> "recv"]
-         /\ reply = [k \in Tasks |-> "none"]
-         /\ lock = 0
-         /\ kind = [t \in Topics |-> "none"]
-         /\ chan = [t \in Topics |-> 0]
-         /\ drains = [t \in Topics |-> TRUE]
-         /\ adopted = [t \in Topics |-> {}]
-         /\ nrouters = [t \in Topics |-> 0]
-         /\ fresh = [k \in Tasks |-> FALSE]
-         /\ handed = [k \in Tasks |-> 0]
-
-\* server.rs:164-202  first frame, validity check, reply
-RecvFirst(k) ==
-    /\ pc[k] = "recv"
-    /\ IF frame[k] = "other"
-       THEN IF FixD18 THEN reply' = [reply EXCEPT ![k] = "err_frame"] /\ pc' = [pc EXCEPT ![k] = "refused"]
-                      ELSE reply' = reply /\ pc' = [pc EXCEPT ![k] = "dropped"]
-       ELSE IF topic[k] = "invalid"
-       THEN reply' = [reply EXCEPT ![k] = "err_invalid"] /\ pc' = [pc EXCEPT ![k] = "refused"]
-       ELSE IF FixD10 THEN reply' = reply /\ pc' = [pc EXCEPT ![k] = "want_lock"]       \* Ok is sent after the kind check
-                      ELSE reply' = [reply EXCEPT ![k] = "ok"] /\ pc' = [pc EXCEPT ![k] = "want_lock"]
-    /\ UNCHANGED <<frame, topic, lock, kind, chan, drains, adopted, nrouters, fresh, handed>>
-
-\* (only ~AtomicCreate) a short hold of the lock to look, released before the router is built
-Peek(k) ==
-    /\ ~AtomicCreate /\ pc[k] = "want_lock" /\ lock = 0
-    /\ fresh' = [fresh EXCEPT ![k] = (kind[topic[k]] = "none")]
-    /\ pc' = [pc EXCEPT ![k] = "peeked"]
-    /\ UNCHANGED <<frame, topic, reply, lock, kind, chan, drains, adopted, nrouters, handed>>
-
-\* server.rs:204  topics.lock().await
-Acquire(k) ==
-    /\ pc[k] = (IF AtomicCreate THEN "want_lock" ELSE "peeked") /\ lock = 0
-    /\ lock' = k /\ pc' = [pc EXCEPT ![k] = "locked"]
-    /\ UNCHANGED <<frame, topic, reply, kind, chan, drains, adopted, nrouters, fresh, handed>>
-
-\* server.rs:207-261  create the topic if needed, check the kind, (send)
-Lookup(k) ==
-    /\ pc[k] = "locked"
-    /\ LET t == topic[k]
-           create == IF AtomicCreate THEN kind[t] = "none" ELSE fresh[k]
-           k0 == IF create THEN KindOf(frame[k]) ELSE kind[t]
-           r0 == IF create THEN nrouters[t] + 1 ELSE nrouters[t] IN   \* the map holds the router inserted last
-       /\ kind' = [kind EXCEPT ![t] = k0]
-       /\ nrouters' = [nrouters EXCEPT ![t] = r0]
-       /\ handed' = [handed EXCEPT ![k] = IF k0 = KindOf(frame[k]) THEN r0 ELSE 0]
-       /\ IF k0 # KindOf(frame[k])
-          THEN IF FixD10
-               THEN /\ reply' = [reply EXCEPT ![k] = "err_kind"]
-                    /\ pc' = [pc EXCEPT ![k] = "refused"] /\ lock' = 0
-               ELSE /\ pc' = [pc EXCEPT ![k] = "panicked"] /\ lock' = 0 /\ reply' = reply   \* unwrap_pubsub / unwrap_reqrep
-          ELSE /\ reply' = [reply EXCEPT ![k] = "ok"]
-               /\ IF FixD15 THEN lock' = 0 /\ pc' = [pc EXCEPT ![k] = "sending"]
-                            ELSE lock' = lock /\ pc' = [pc EXCEPT ![k] = "sending_locked"]
-    /\ UNCHANGED <<frame, topic, chan, drains, adopted, fresh>>
-
-\* tx.send(socket).await: completes only when the bounded channel has room
-Send(k) ==
-    /\ pc[k] \in {"sending", "sending_locked"}
-    /\ chan[topic[k]] < Cap
-    /\ chan' = [chan EXCEPT ![topic[k]] = @ + 1]
-    /\ adopted' = adopted
-    /\ lock' = IF pc[k] = "sending_locked" THEN 0 ELSE lock
-    /\ pc' = [pc EXCEPT ![k] = "served"]
-    /\ UNCHANGED <<frame, topic, reply, kind, drains, nrouters, fresh, handed>>
-
-\* the topic's router takes a socket off its channel
-RouterTakes(t) ==
-    /\ drains[t] /\ chan[t] > 0
-    /\ chan' = [chan EXCEPT ![t] = @ - 1]
-    /\ UNCHANGED <<frame, topic, pc, reply, lock, kind, drains, adopted, nrouters, fresh, handed>>
-
-\* a subscriber of t stops reading while a message is buffered: the router stops draining
-Stall(t) ==
-    /\ drains[t] /\ kind[t] = "pubsub"
-    /\ drains' = [drains EXCEPT ![t] = FALSE]
-    /\ UNCHANGED <<frame, topic, pc, reply, lock, kind, chan, adopted, nrouters, fresh, handed>>
-
-SNext == \/ \E k \in Tasks : RecvFirst(k) \/ Peek(k) \/ Acquire(k) \/ Lookup(k) \/ Send(k)
-         \/ \E t \in Topics : RouterTakes(t) \/ Stall(t)
-SSpec == SInit /\ [][SNext]_svars
-\* everything but the stall is weakly fair
-SFair == SSpec /\ \A k \in Tasks : WF_svars(RecvFirst(k)) /\ WF_svars(Peek(k)) /\ WF_svars(Acquire(k)) /\ WF_svars(Lookup(k)) /\ WF_svars(Send(k))
-SFair2 == SFair /\ \A t \in Topics : WF_svars(RouterTakes(t))
-
-Final == {"served", "refused", "dropped", "panicked"}
-
-\* C11: served in the role asked for, or explicitly refused with an error frame
-Inv_AnsweredTruthfully ==
-    \A k \in Tasks :
-        /\ pc[k] = "served" => reply[k] = "ok"
-        /\ pc[k] = "refused" => reply[k] \in {"err_invalid", "err_kind", "err_frame"}
-        /\ pc[k] # "dropped"                       \* never left without an answer
-        /\ pc[k] # "panicked"                      \* never accepted (Ok) and then abandoned
-\* C11 / C07: an Ok is only ever followed by service
-Inv_OkMeansServed == \A k \in Tasks : reply[k] = "ok" => pc[k] \in {"want_lock", "locked", "sending", "sending_locked", "served"}
-\* C07: a refused registration does not create its topic
-Inv_InvalidRefused == \A k \in Tasks : (frame[k] # "other" /\ topic[k] = "invalid" /\ pc[k] \in Final) => pc[k] = "refused"
-\* C01 / C02 ("the" router of a topic): one router per topic name, ever; all peers served on a name share it
-Inv_OneRouterPerTopic ==
-    /\ \A t \in Topics : nrouters[t] <= 1
-    /\ \A k1, k2 \in Tasks : (pc[k1] = "served" /\ pc[k2] = "served" /\ topic[k1] = topic[k2]) => handed[k1] = handed[k2]
-\* the structural reason C17 holds: nobody waits for channel room while holding the global lock
-Inv_NoBlockingSendUnderLock == \A k \in Tasks : pc[k] = "sending_locked" => chan[topic[k]] < Cap \/ ~FixD15
-
-\* C17: however topic A's peers behave, a valid registration on another topic is eventually answered and served
-Live_OtherTopicProgress ==
-    \A k \in Tasks : \A t \in Topics :
-        (topic[k] = t /\ frame[k] # "other") ~> (pc[k] \in Final \/ ~drains[t])
+(* ServerRegCore (the registration path of server/src/server.rs, see there) plus the *)
+(* export of its case space for the conformance run.  The core is kept free of the   *)
+(* Json module so that proofs/ServerRegProof.tla (TLAPS) can extend it.               *)
+EXTENDS ServerRegCore, Json
 
 \* case export: one line per assignment of first frames / topics to the stream opens
 EmitCase == (\A k \in Tasks : pc[k] = "recv") =>
